@@ -240,7 +240,7 @@ def canon_values(db):
 
 
 class GraphWorld(statuslib.World):
-    def _uptodate(self, item):
+    def _uptodate(self, item, t=None):
         from doit import tools
         from doit.dependency import UptodateCalculator
         kind = item[0]
@@ -271,7 +271,7 @@ class GraphWorld(statuslib.World):
                     task.value_savers.append(lambda: {'ucalc': 1})
                     return bool(values.get('ucalc'))
             return Seen()
-        return statuslib.World._uptodate(self, item)
+        return statuslib.World._uptodate(self, item, t)
 
     def __init__(self, case):
         statuslib.World.__init__(self, case['backend'], case['checker'], len(case['tasks']),
